@@ -13,7 +13,8 @@ CFG = dict(
                    "(RowToBlockAndOffset addresses the rows), C04_no_dup, C04_get_hashed (sort.Search+equality Get = lookup "
                    "by key for an injective hash), C04_empty_panics_refuted (the pre-7a1623b code panics). Model tied to "
                    "pkg/diff by differential execution on tables built through ingest.IngestTable, incl. the consumers of the events "
-                   "(wrgl diff --no-gui, RowListReader, RowChangeReader, TableReader) and both store arrangements.",
+                   "(wrgl diff --no-gui, RowListReader, RowChangeReader, TableReader), both store arrangements, and table indices "
+                   "produced by ingest as well as rebuilt by ingest.IndexTable.",
         level_note="Theorems are about coq/model/Diff.v (hand transliteration); tie = correspondence harness over "
                    "diff.DiffTables and diff.VerifFindOverlappingBlocks. The table index is taken to be the first keys of the "
                    "blocks (C03) and key lookup is by key equality (MeowHash collision freedom, see C04_get_hashed).",
@@ -26,6 +27,7 @@ CFG = dict(
              "edited copy, overlapping). window cases (tag 1): all pairs of strictly increasing first-key vectors of length "
              "<=4 over 6 words (prefix-related) x every off1 x every prevEnd 0..n, plus random composite vectors. "
              "prefix batch: 2- and 3-column keys whose components come from a family built to break join-then-compare (\"\", \" \", a, a\\x00, \"a \", a!, a\\\", \"a,\", a-, ab, a\\xff, \"b,\", \\x80; second components starting with a digit or a space), groups sharing the first component straddling or exceeding block boundaries, tables of up to 6 blocks, all ordered pairs; windows-prefix: all pairs of strictly increasing vectors of length <=3 over 8 (thorough 10) such 2-column keys and of length <=2 (thorough 3) over 9 3-column keys with the prefix relation in the middle column; window cases are run before the table cases. "
+             "shifted batch: table pairs sharing whole blocks at DIFFERENT block positions (first block removed, middle block removed, 255 / 510 rows inserted in front, last block moved in front of other rows, short last block appended, edits inside shared blocks and at block edges), base of 3 (thorough 4) full blocks, run with emitUnchanged off and on (on: every unchanged row is an event whose offsets are checked against the stored rows), in one shared store, and through the readers. reindexed batch (flag bit 2): the table indices of both tables rebuilt by ingest.IndexTable (the route of a received table) for tables whose key columns are not the leading columns (single key last of 3 columns, composite layouts), keyless tables and shifted pairs. "
              "flags on tag-0 cases: emitUnchanged on for all exhaustive pairs and a fifth of the block pairs; both tables in one "
              "object store (default: each table in its own store, db1 != db2) for a third of the exhaustive pairs, a sixth "
              "of the block pairs and all edge pairs. reader cases (tag 3): DiffTables consumed through RowListReader / "
